@@ -250,6 +250,11 @@ class SymPyExpressionReader(myokit.formats.sympy.SymPyExpressionReader):
         if isinstance(e, sp.NumberSymbol):
             # Constants like pi and E (= exp(1)) are not handled by myokit's reader
             return myokit.Number(float(e))
+        if isinstance(e, sp.ITE):
+            # A Conditional within the condition of another Conditional
+            # is turned into an if-then-else of conditions by sympy
+            cond, true_value, false_value = e.args
+            return self.ex(sp.Or(sp.And(cond, true_value), sp.And(sp.Not(cond), false_value)))
         return super().ex(e)
 
     def _ex_nary(self, e, operator):
